@@ -1458,7 +1458,7 @@ func c17RunX(r *Run, h *c17Hist, seed uint64, st *c17Stats, harvest *[]string) (
 		// load, and judged as "script-hangs". The wall-clock watchdog is only a
 		// safety net and leads to a machinery error, never to a verdict.
 		ctx, cancel := context.WithTimeout(context.Background(), bashWatchdog)
-		cmd := exec.CommandContext(ctx, "/bin/bash", "-c", `ulimit -t 2; ulimit -n 256; exec /bin/bash "$0"`, script)
+		cmd := exec.CommandContext(ctx, "/bin/bash", "-c", `ulimit -t 6; ulimit -n 256; exec /bin/bash "$0"`, script)
 		cmd.Dir = priv
 		cmd.Env = []string{"PATH=/usr/local/bin:/usr/bin:/bin", "LC_ALL=C.UTF-8", "HOME=/nonexistent/home of the c17 user", "USER=c17", "TMPDIR=/nonexistent/tmp of the c17 user"}
 		cmd.Stdout, cmd.Stderr = &limitedWriter{w: &so, n: 32 << 20}, &limitedWriter{w: &se, n: 4096}
@@ -1474,7 +1474,7 @@ func c17RunX(r *Run, h *c17Hist, seed uint64, st *c17Stats, harvest *[]string) (
 		}
 		if ee, ok := runErr.(*exec.ExitError); ok {
 			if ws, ok := ee.Sys().(syscall.WaitStatus); ok && ws.Signaled() && (ws.Signal() == syscall.SIGXCPU || ws.Signal() == syscall.SIGKILL) {
-				return "script-hangs", fmt.Sprintf("segment %d: the script used more than 2 s of CPU time (%v) and was stopped; stderr: %s", si, ws.Signal(), firstLines(se.String(), 2)), nil
+				return "script-hangs", fmt.Sprintf("segment %d: the script used more than 6 s of CPU time (%v) and was stopped; stderr: %s", si, ws.Signal(), firstLines(se.String(), 2)), nil
 			}
 		}
 		r.Env.procs.Add(1)
